@@ -25,42 +25,62 @@ package logqlpattern
 //@ func Parse
 //@   modifies nothing
 //@   loop 0 modifies r.pos, p.Parts[*]
-//@   loop 0 invariant r != nil && fresh(r) && 0 <= r.pos && fresh(p.Parts)
+//@   loop 0 invariant r != nil && fresh(r) && 0 <= r.pos && r.pos <= len(r.input) && fresh(p.Parts)
+//@   loop 0 decreases len(r.input) - r.pos
 //@   loop 1 modifies dedup[*]
 //@   loop 1 invariant dedup != nil && fresh(dedup) && rangeindex+1 <= len(p.Parts)
 //@   loop 2 modifies nothing
 //@   loop 2 invariant rangeindex+1 <= len(p.Parts)
 
-// ---- C17: the reader's cursor stays inside the input (no slice panic).
+// ---- C17: the reader's cursor stays inside the input (no slice panic) and every loop over the
+// pattern text consumes it (measure: the unread part of the input).
+
+//@ scope logqlpattern.go
+
+//@ spec func peekAt(r *reader) rune {
+//@   return ite(r.pos >= len(r.input), rune(-1), first(utf8.DecodeRuneInString(r.input[r.pos:])))
+//@ }
 
 //@ func (*reader).next
 //@   requires 0 <= r.pos
 //@   modifies nothing
 //@   ensures ret1 >= 0 && (ret1 > 0 ==> r.pos + ret1 <= len(r.input))
+//@   ensures[rune-at-the-cursor] ret0 == peekAt(r) && (r.pos < len(r.input) ==> ret1 >= 1 && ret0 >= 0) && (r.pos >= len(r.input) ==> ret1 == 0)
 //@ func (*reader).Peek
 //@   requires 0 <= r.pos
 //@   modifies nothing
+//@   ensures[rune-at-the-cursor] ret0 == peekAt(r) && (ret0 == -1) == (r.pos >= len(r.input))
 //@ func (*reader).Read
 //@   requires 0 <= r.pos
 //@   modifies r.pos
 //@   ensures r.pos >= old(r.pos) && (old(r.pos) <= len(r.input) ==> r.pos <= len(r.input))
+//@   ensures[consumes-the-rune-at-the-cursor] ret0 == old(peekAt(r)) && (old(r.pos) < len(r.input) ==> r.pos > old(r.pos))
 //@ func (*reader).Unread
 //@   requires 0 <= r.pos
 //@   modifies r.pos
-//@   ensures 0 <= r.pos && r.pos <= old(r.pos)
+//@   ensures 0 <= r.pos && r.pos <= old(r.pos) && r.pos >= old(r.pos) - 1
 //@ func (*reader).Scan
 //@   requires 0 <= r.pos
 //@   modifies r.pos
 //@   ensures 0 <= r.pos
+//@   ensures[a-part-consumes-input] ret1 == nil ==> r.pos > old(r.pos)
+//@   ensures[stays-inside-the-input] old(r.pos) <= len(r.input) ==> r.pos <= len(r.input)
 //@ func (*reader).scanCapture
 //@   requires 0 <= r.pos
 //@   modifies r.pos
 //@   ensures 0 <= r.pos
+//@   ensures[never-moves-back] r.pos >= old(r.pos)
+//@   ensures[stays-inside-the-input] old(r.pos) <= len(r.input) ==> r.pos <= len(r.input)
 //@   loop 0 modifies r.pos, label.*
-//@   loop 0 invariant 0 <= r.pos
+//@   loop 0 invariant 0 <= r.pos && r.pos >= old(r.pos) && (old(r.pos) <= len(r.input) ==> r.pos <= len(r.input))
+//@   loop 0 decreases len(r.input) - r.pos
 //@ func (*reader).scanLiteral
 //@   requires 0 <= r.pos
 //@   modifies r.pos
 //@   ensures 0 <= r.pos
+//@   ensures[never-moves-back] r.pos >= old(r.pos)
+//@   ensures[consumes-a-plain-rune] old(peekAt(r)) != -1 && old(peekAt(r)) != '<' ==> r.pos > old(r.pos)
+//@   ensures[stays-inside-the-input] old(r.pos) <= len(r.input) ==> r.pos <= len(r.input)
 //@   loop 0 modifies r.pos, literal.*
-//@   loop 0 invariant 0 <= r.pos
+//@   loop 0 invariant 0 <= r.pos && r.pos >= old(r.pos) && (old(r.pos) <= len(r.input) ==> r.pos <= len(r.input))
+//@   loop 0 decreases len(r.input) - r.pos
